@@ -120,7 +120,8 @@ NOT_VERIFIED = [
     'Python aliasing: MultistageDistributor hands the SAME accumulating dict to every stage (pure stages assumed; C18)',
     'insertion order of a HighestAverages result (order of first award): ByParty walks the parties in that order, so which '
     'of several failing parties raises first is not modelled (any two exceptions are taken to agree in trees with ByParty)',
-    'negative seat counts (an unused-votes stage that over-awards): not generated',
+    'negative seat counts (an unused-votes stage that over-awards): the quota leaves reproduce the usual outcome (non-positive '
+    'quota refused); the rest answers ModelUnsupported and is not compared (about 1 case in 10^5)',
 ]
 EXHAUSTIVE = {'thorough': False}
 
@@ -1010,6 +1011,10 @@ def compare(case, iobs, mobs):
     if _is_err(w) and str(w['err']).startswith('build:'):
         return None
     msgs = []
+    if _is_err(m) and m['err'] == 'ModelUnsupported':
+        # the flat leaf models say themselves that they do not cover this input (a negative seat count left by an
+        # over-awarding stage together with a positive quota; Tie objects as vote keys): nothing to compare
+        return None
     if _is_err(w) or _is_err(m):
         same_class = _is_err(w) and _is_err(m) and w['err'] == m['err']
         # ByParty walks the parties in the insertion order of the overall result; the shared HighestAverages
